@@ -25,13 +25,54 @@ import random
 import torch
 
 from ..core import Ctx, MachineryError
-from ..dualcone_replay import eval_c04, work_c04, work_c04_big
+from .. import badscale as BS
+from ..dualcone_replay import eval_c04, work_c04, work_c04_big, work_c04_bs
 from ..dualcone_trace import replay_raised, rerun_episode, report_raised, exact_episodes, mgda_episode, mgda_episodes, validate_exact, validate_mgda
 from ..par import pmap
-from ..tlc import run_tlc
+from ..tlc import SPEC_DIR, run_tlc
 from .c03 import model_check
 
 PID = "C04"
+BS_INVARIANTS = ["BSMinNormOK", "BSBracketSound", "BSStationaryObvious", "BSRefinesMinNorm"]
+
+
+def bs_model_run(tier: str, seed: int, insts: list[dict]):
+    """TLC on the badly scaled family of DualCone.tla (MC_DualCone_bs_<tier>.cfg; SamplePick = seed rotates the
+    sample of kept matrices) plus the seeded random instances `insts` (file branch).  No ctx access: runs in a
+    worker thread next to the main model check."""
+    import os
+    import tempfile
+    cfg = (SPEC_DIR / f"MC_DualCone_bs_{tier}.cfg").read_text()
+    if "CONSTANT SamplePick = 0" not in cfg:
+        raise MachineryError("MC_DualCone_bs cfg: SamplePick line not found")
+    cfg = cfg.replace("CONSTANT SamplePick = 0", f"CONSTANT SamplePick = {seed}")
+    with tempfile.TemporaryDirectory(prefix="verif_c04bs_") as d:
+        path = os.path.join(d, "bs.json")
+        with open(path, "w") as f:
+            json.dump(insts, f)
+        return run_tlc("DualCone", cfg_text=cfg, workers="auto", seed=seed, env={"BS_FILE": path}, timeout=2400, check=False)
+
+
+def bs_scenarios(ctx: Ctx, res, insts: list[dict]) -> list[dict]:
+    if res.error is not None:
+        raise MachineryError(f"TLC machinery failure on DualCone (badly scaled family):\n{res.error[:2000]}")
+    ctx.add_tlc(res)
+    if res.violated:
+        raise MachineryError(f"DualCone (badly scaled family): the specification itself violates {res.violated}\n{res.cex[:1500]}")
+    ikey = lambda s: (json.dumps(s["J0"]), tuple(s["rho"]), tuple(s["gam"]))      # noqa: E731
+    # an instance of the file may coincide with an enumerated one (exported from both branches): distinct instances
+    scns = list({ikey(s): s for s in res.prints.get("BSCN", [])}.values())
+    fkeys = {ikey(i) for i in insts}
+    want = BS.expected_scaled_instances(BS.SHAPES[PID][ctx.tier], ctx.seed)
+    n_enum = sum(1 for s in scns if ikey(s) not in fkeys)
+    if not (want - len(insts) <= n_enum <= want) or not fkeys <= {ikey(s) for s in scns}:
+        raise MachineryError(f"DualCone badly scaled family: {len(scns)} distinct scenarios exported ({n_enum} not in the file), "
+                             f"expected {want} enumerated + {len(insts)} listed")
+    scns.sort(key=lambda s: (s["m"], s["n"], s["J0"], s["rho"], s["gam"]))
+    ctx.extra["bs_scenarios_exported"] = len(scns)
+    ctx.extra["bs_listed_random_instances"] = len(insts)
+    ctx.extra["bs_model_invariants"] = list(BS_INVARIANTS)
+    return scns
 
 
 def _is_unit_family(s: dict) -> bool:
@@ -43,13 +84,18 @@ def run(ctx: Ctx, replay: str | None) -> None:
     rng = random.Random(ctx.seed)
     ctx.rule = ("one case = (aggregator in {UPGrad, DualProj, MGDA, CAGrad}, integer matrix J0 of the TLC family, "
                 "parameters (pref vector, eps pair | max_iters | c), scale 2^e) with s >= norm_eps; non-trivial = J0 has two "
-                "rows with a negative inner product")
+                "rows with a negative inner product; badly scaled family: J = 2^e D_r J0 D_c with rows / columns scaled by "
+                "2^-P (P in {5, 7, 8, 9}: singular values up to 4^P apart), non-trivial = conflicting and not Pareto-stationary")
     ctx.assumptions += [
         "s^2 is bracketed exactly by the specification (L <= s^2 < L+1, Sylvester); allowances use the upper end, "
         "which can only enlarge them by a factor < (L+1)/L",
         "float floors: 1e-11 s^2 |w| (float64), 1e-4 s^2 |w| (float32, predicate level) for SVD / QP / product rounding",
         "CAGrad: 'the conic solver's tolerance' is taken as 1e-6 s |A(J)| (CLARABEL default feasibility 1e-8); predicate level",
         "MGDA's 8 s^2/(max_iters+2) for budgets > 2 is evaluated in float64 with the exact minnorm^2 of the specification",
+        "badly scaled family (EpsScale.tla): exponents carried symbolically, s^2 bracketed in sixteenths of the trace and "
+        "the hull's distance d2 decided exactly for every P >= needP; CAGrad is judged where d2/tr >= 1e-6 (every hull point "
+        "is >= 10 norm_eps s away from 0: the code cannot take its stationarity branch); stationary / nearer instances are "
+        "executed by the other aggregators and counted for CAGrad",
     ]
     if replay:
         p = json.load(open(replay))["payload"]
@@ -65,7 +111,13 @@ def run(ctx: Ctx, replay: str | None) -> None:
             validate_exact(ctx, [rerun_episode(p["episode"])], PID)
         return
 
-    scns = model_check(ctx, PID)
+    from concurrent.futures import ThreadPoolExecutor
+    bs_insts = BS.random_instances(random.Random(ctx.seed * 7919 + 4), 80 if ctx.tier == "quick" else 600)
+    with ThreadPoolExecutor(1) as ex:
+        bs_future = ex.submit(bs_model_run, ctx.tier, ctx.seed, bs_insts)
+        scns = model_check(ctx, PID)
+        bs_res = bs_future.result()
+    bs_scns = bs_scenarios(ctx, bs_res, bs_insts)
     ctx.extra["model_invariants"] = ["Feasible", "KKTExistsUnique", "MinNormOK", "FWSimplex", "FWMonotone", "FWAllowance",
                                      "FWRate", "FWTwoRowsExact", "BracketSound"]
     if ctx.tier == "thorough":
@@ -116,9 +168,30 @@ def run(ctx: Ctx, replay: str | None) -> None:
         ctx.evaluations += 1
         for key, what, case in r["fails"]:
             ctx.violation(key, what, {"kind": "case", "case": case})
-    for k in ("cases_upgrad", "cases_dualproj", "cases_mgda", "cases_cagrad"):
+    # ---- the badly scaled family (EpsScale.tla): instantiated at eps = 2^-P, P in {7, 8, 9} (and 5), every aggregator
+    for s, r in zip(bs_scns, pmap(work_c04_bs, [(s, ctx.tier, i + ctx.seed) for i, s in enumerate(bs_scns)], chunksize=8)):
+        ctx.evaluations += r["n"]
+        ctx.traces += 1
+        for k, v in r["cnt"].items():
+            ctx.count(k, v)
+        for k, v in r["kinds"].items():
+            ctx.count("cases_" + k, v)
+        if s["conflict"] and not s["stationary"]:
+            ctx.nontrivial("bs:" + json.dumps([s["J0"], s["rho"], s["gam"]]))
+        for key, what, case in r["fails"]:
+            ctx.violation(key, what, {"kind": "case", "case": case})
+        for o in r["obs"]:
+            ctx.count("float32_cagrad_observations")
+            if ctx.counters["float32_cagrad_observations"] <= 8:
+                ctx.note("float32 observation (reported to the lead, not a verdict): " + o)
+    for k in ("cases_upgrad", "cases_dualproj", "cases_mgda", "cases_cagrad",
+              "cases_bs_upgrad", "cases_bs_dualproj", "cases_bs_mgda", "cases_bs_cagrad"):
         if not ctx.counters.get(k):
             raise MachineryError(f"vacuous replay: {ctx.counters}")
+    if ctx.counters.get("bs_cagrad_judged_instances", 0) < 200:
+        raise MachineryError(f"vacuous coverage of the badly scaled family: {ctx.counters}")
+    ctx.sample({"bs_scenario": {k: bs_scns[len(bs_scns) // 2][k] for k in
+                                ("J0", "rho", "gam", "tr", "lamK", "d2num", "d2den", "stationary", "needP")}})
     for s in (pick[len(pick) // 3], pick[-1]):
         ctx.sample({"scenario": {k: s[k] for k in ("J", "lamLo", "lamInt", "conflict", "mn2")}})
 
